@@ -322,3 +322,26 @@ pub fn point_tags(p: &crate::edwards::EdwardsPoint) -> (u64, u64) {
     #[cfg(curve25519_dalek_bits = "32")] { ((p.X.0[0] as u64) | ((p.X.0[1] as u64) << 32), (p.X.0[2] as u64) | ((p.X.0[3] as u64) << 32)) }
 }
 pub fn scalar_raw(bytes: [u8; 32]) -> crate::scalar::Scalar { crate::scalar::Scalar { bytes } }
+
+// ------------------------------------------------------------------ Scalar-level glue (C02, layer F for scalars)
+#[no_mangle] #[inline(never)] pub fn vp_sc_add(a: &Scalar, b: &Scalar) -> Scalar { a + b }
+#[no_mangle] #[inline(never)] pub fn vp_sc_sub(a: &Scalar, b: &Scalar) -> Scalar { a - b }
+#[no_mangle] #[inline(never)] pub fn vp_sc_mul(a: &Scalar, b: &Scalar) -> Scalar { a * b }
+#[no_mangle] #[inline(never)] pub fn vp_sc_neg(a: &Scalar) -> Scalar { -a }
+#[no_mangle] #[inline(never)] pub fn vp_sc_from_bytes_mod_order(b: &[u8; 32]) -> Scalar { Scalar::from_bytes_mod_order(*b) }
+#[no_mangle] #[inline(never)] pub fn vp_sc_from_bytes_mod_order_wide(b: &[u8; 64]) -> Scalar { Scalar::from_bytes_mod_order_wide(b) }
+#[no_mangle] #[inline(never)] pub fn vp_sc_from_canonical_bytes(b: &[u8; 32], out: &mut Scalar) -> u8 {
+    let r = Scalar::from_canonical_bytes(*b); let ok = r.is_some().unwrap_u8();
+    *out = r.unwrap_or(Scalar::ZERO); ok
+}
+#[no_mangle] #[inline(never)] pub fn vp_sc_invert(a: &Scalar) -> Scalar { a.invert() }
+#[no_mangle] #[inline(never)] pub fn vp_sc_from_u64(x: u64) -> Scalar { Scalar::from(x) }
+#[no_mangle] #[inline(never)] pub fn vp_sc_from_u128(x: u128) -> Scalar { Scalar::from(x) }
+#[no_mangle] #[inline(never)] pub fn vp_sc_from_u8(x: u8) -> Scalar { Scalar::from(x) }
+#[no_mangle] #[inline(never)] pub fn vp_sc_from_u16(x: u16) -> Scalar { Scalar::from(x) }
+#[no_mangle] #[inline(never)] pub fn vp_sc_from_u32(x: u32) -> Scalar { Scalar::from(x) }
+#[no_mangle] #[inline(never)] pub fn vp_sc_ct_eq(a: &Scalar, b: &Scalar) -> u8 { a.ct_eq(b).unwrap_u8() }
+#[cfg(feature = "alloc")]
+#[no_mangle] #[inline(never)] pub fn vp_sc_batch_invert(a: &mut [Scalar]) -> Scalar { Scalar::batch_invert(a) }
+#[no_mangle] #[inline(never)] pub fn vp_sc_sum3(a: &[Scalar; 3]) -> Scalar { a.iter().sum() }
+#[no_mangle] #[inline(never)] pub fn vp_sc_product3(a: &[Scalar; 3]) -> Scalar { a.iter().product() }
